@@ -74,7 +74,8 @@ META = {
                 "configuration (fixed/variable, cache/automaton, with/without tag scorer), every predictor built from it and every "
                 "non-empty text, predict does not panic, boundary_scores = the pointwise linear model (pattern-indexed sum over all "
                 "occurrences), labels = sign of the score with no unknown left, nothing else changes. Tied to /repo by an exhaustive "
-                "small scope and random well-formed models (all window classes) with a brute-force oracle in the harness.",
+                "small scope and random well-formed models (all window classes) with a brute-force oracle in the harness. "
+                "Window size 0 (outside this property's quantifier, inside C09/C11's) is covered by C01_scores_window0 for WFModel0: a zero window switches the n-grams of that kind off, whatever the list contains; dictionary words and tag n-grams still count.",
         "design_ref": "DESIGN.md §6 C01",
         "note": _common_note + "Assumed, not proved: no i32 overflow in score sums (scores are unbounded Int in the model); the daachorse "
                 "automaton contract (longest pattern per end position; all patterns for the cache builder); byte-wise and "
@@ -179,7 +180,8 @@ META = {
                 "and nothing else changes (C06_tags, C06_argmax); with score storing, tag_candidates reports exactly those sums, "
                 "0 for single candidates (C06_candidates); a model without categories leaves the sentence as is (C06_no_categories). "
                 "Tied to /repo by random tag models (ties, 0/1/2/3/9 candidates, empty boundary models) with edited boundaries and a "
-                "brute-force per-token classifier oracle in the harness.",
+                "brute-force per-token classifier oracle in the harness. "
+                "C06_predictTags_window0 / C06_tags_window0 / C06_candidates_window0 state the same for models with a window size of 0 (WFModel0); the specification does not depend on the boundary n-grams (C06_spec_dropW0).",
         "design_ref": "DESIGN.md §6 C06",
         "note": _common_note + "daachorse contract as in C01 (longest pattern per end position is what the recorded state holds).",
         "technique": "Lean 4 proof (merge invariant instantiated at (token, rel, class) evaluations; loop = specSeg; row non-interference) + differential correspondence",
@@ -261,7 +263,9 @@ META = {
                 "The loading stage of the `train` tool (anchored file train/src/main.rs; VModel/TrainCli.lean, tied through hook H5) is total: "
                 "whatever the files contain it ends with the trainer's arguments or an error (C11_train_tool_loading_total), and the word "
                 "dictionary it builds is strictly sorted, free of empty and repeated words and exactly the token surfaces of the normalised "
-                "dictionary lines, so Trainer::new always accepts it (C11_train_tool_dictionary).",
+                "dictionary lines, so Trainer::new always accepts it (C11_train_tool_dictionary). The usability theorems also hold for window "
+                "size 0 (WFModel0): C11_assembled_wf0, C11_assembled_dropW0, C11_predictor_accepts_window0, C11_predict_total_window0, "
+                "C11_trained_predictor_scores_window0 (the end-to-end statement for all window sizes 0..255).",
         "design_ref": "DESIGN.md §6 C11",
         "note": _common_note + "PARTIAL by nature: 'training never panics' for the learner call itself is established by the sweep (exploration), not by a "
                 "theorem; the theorems cover everything before and after the learner.",
